@@ -882,9 +882,15 @@ fn handle_formatting(
 /// Handle a textDocument/codeAction request.
 fn handle_code_action(
     id: serde_json::Value,
-    params: CodeActionParams,
+    mut params: CodeActionParams,
     documents: &DocumentStore,
 ) -> JsonRpcResponse<Vec<CodeActionResponse>> {
+    // Don't assume the client sent the ends of the range in order.
+    let range = &mut params.range;
+    if (range.start.line, range.start.character) > (range.end.line, range.end.character) {
+        std::mem::swap(&mut range.start, &mut range.end);
+    }
+
     let uri = &params.text_document.uri;
 
     // Convert file:// URI to path
